@@ -411,7 +411,7 @@ func runReader(c *core.Ctx) {
 	var orders []int
 	var got map[int][]obsRec
 	var rerr error
-	ok := c.Bounded(label, 25*time.Second, func() {
+	ok := c.Bounded(label, 300*time.Second, func() {
 		var it obiiter.IBioSequence
 		switch format {
 		case "fasta":
@@ -855,7 +855,7 @@ func init() {
 		Assume: []string{"well-formed input as defined in DESIGN.md Appendix A.4 (no blank lines inside files, no empty sequences except GenBank entries without ORIGIN block in the parser layers, flat-file lines <= 100 columns; a byte order mark only in front of files opened by name)", "b = 1 is excluded (the reader cannot progress with a one-byte buffer; production buffers are >= 1 MiB)"},
 		Subs: []core.Sub{
 			{Name: "chunk", N: core.Const(48, 960), Run: runChunk},
-			{Name: "reader", N: core.Const(192, 7680), Run: runReader, Race: true, NRace: core.Const(48, 192)},
+			{Name: "reader", N: core.Const(192, 7680), Run: runReader, TimeoutS: 3000, Race: true, NRace: core.Const(48, 192)},
 			{Name: "e2e", N: core.Const(16, 384), Run: runE2E},
 			{Name: "e2e-asan", N: core.Const(8, 128), Run: runE2EAsan, TimeoutS: 3000},
 			{Name: "bigfile", N: core.Const(2, 4), Run: runBig, Serial: false, TimeoutS: 1800},
